@@ -463,10 +463,12 @@ class Interp:
         return None
 
     def _symbolic_iterable(self, node, env):
-        from .values import LazyDictV, deref
+        from .values import LazyDictV, LazySetV, deref
 
         it = deref(self.eval(node.iter, env))
         if isinstance(it, self.lib.ItemsView):
+            it = it.d
+        if isinstance(it, LazySetV):
             it = it.d
         if isinstance(it, SeqV):
             return not isinstance(it.n, int)
@@ -622,7 +624,10 @@ class Interp:
     def e_Name(self, node, env):
         name = self.mangle(node.id, env)
         try:
-            return env.lookup(name)
+            v = env.lookup(name)
+            if type(v).__name__ == "Poison":
+                raise OutsideSubset(f"{v!r} is read at {self.where(node)}: the loop contract must describe it (havoc + invariant)")
+            return v
         except KeyError:
             pass
         if name in self.builtins:
@@ -899,7 +904,15 @@ class Interp:
         args = []
         for a in node.args:
             if isinstance(a, ast.Starred):
-                args.extend(self.lib.iterate(self, self.eval(a.value, env), a))
+                sv = self.eval(a.value, env)
+                from .values import deref as _deref
+
+                dv = _deref(sv)
+                if isinstance(dv, (SymListV, SeqV)) and isinstance(f, BuiltinFn) and f.name == "asyncio.gather":
+                    # gather(*<awaitables, arbitrarily many>): each is awaited exactly once
+                    args.append(self.lib.StarSeq(dv))
+                    continue
+                args.extend(self.lib.iterate(self, sv, a))
             else:
                 args.append(self.eval(a, env))
         kwargs = {}
@@ -976,9 +989,9 @@ class Interp:
             return self.truthy(v.prefix, node)
         if isinstance(v, MapV):
             return self.lib.map_nonempty(self, v)
-        from .values import LazyDictV
+        from .values import LazyDictV, LazySetV
 
-        if isinstance(v, LazyDictV):
+        if isinstance(v, (LazyDictV, LazySetV)):
             n = self.lib.length(self, v)
             return n > 0 if isinstance(n, int) else self.ctx.decide(n.t > 0)
         if isinstance(v, ObjV):
